@@ -148,8 +148,9 @@ def bindFrom (a : CArgs) : Nat → List Param → List (Option AVal)
 /-- the arguments the body sees -/
 def bind (sig : List Param) (a : CArgs) : List (Option AVal) := bindFrom a 0 sig
 
-/-- "same task, same effective arguments" -/
-def effEq (sig : Nat → List Param) (c d : Occ) : Bool :=
+/-- "same task, same effective arguments" for signatures of plain parameters only (used for the theorem
+    about the pre-repair rule) -/
+def effEqPlain (sig : Nat → List Param) (c d : Occ) : Bool :=
   c.id == d.id && bind (sig c.id) c.args == bind (sig d.id) d.args
 
 /-- two calls spell out the same parameters: as many positionals and the same keyword names -/
@@ -159,51 +160,90 @@ def subKeys (a b : KW) : Bool := (keys a).all (hasKey b)
 def sameSpelling (c d : Occ) : Bool :=
   c.args.pos.length == d.args.pos.length && subKeys c.args.kw d.args.kw && subKeys d.args.kw c.args.kw
 
-/-! ### `Call.__eq__` (as repaired): equal tasks and equal EFFECTIVE arguments -/
+/-! ### signatures with `*rest`, keyword-only parameters and `**kw` -/
+
+/-- the parameters after the context: positional-or-keyword ones, keyword-only ones, and whether the
+    body takes `*rest` / `**kw` -/
+structure Sig where
+  pk : List Param
+  ko : List Param
+  varPos : Bool
+  varKw : Bool
+  deriving Repr
+
+/-- a signature of plain parameters -/
+def Sig.plain (l : List Param) : Sig := ⟨l, [], false, false⟩
+
+def Sig.named (s : Sig) : List Param := s.pk ++ s.ko
 
 def paramNames (sig : List Param) : List Name := sig.map Param.name
 
-def kwNamesParam (sig : List Param) (a : CArgs) (k : Name) : Bool :=
-  (paramNames (sig.drop a.pos.length)).contains k
+/-- what the body receives: one slot per named parameter (`none` = still missing), the extra positionals
+    (`*rest`) and the extra keywords (`**kw`); this determines `(bound.args[1:], bound.kwargs)` and vice
+    versa -/
+structure Bound where
+  slots : List (Option AVal)
+  extraPos : List AVal
+  extraKw : KW
+  deriving Repr
 
-/-- `inspect.signature(body).bind_partial(None, *args, **kwargs)` succeeds: not more positionals than
-    parameters, every keyword names a parameter that is not already filled positionally -/
-def wellCalled (sig : List Param) (a : CArgs) : Bool :=
-  decide (a.pos.length ≤ sig.length) && (keys a.kw).all (kwNamesParam sig a)
+def notNamed (s : Sig) (kv : Name × AVal) : Bool := !(paramNames s.named).contains kv.1
 
-/-- `Call._effective_arguments()`: the bound arguments with defaults applied (one slot per parameter,
-    `none` = still missing; this determines `(bound.args[1:], bound.kwargs)` and vice versa), or the
-    literal `(args, kwargs)` when binding raises `TypeError` -/
+/-- `bind_partial(None, *args, **kwargs)` + `apply_defaults()` -/
+def bindS (s : Sig) (a : CArgs) : Bound :=
+  ⟨bind s.named ⟨a.pos.take s.pk.length, a.kw⟩, a.pos.drop s.pk.length, a.kw.filter (notNamed s)⟩
+
+def boundEq (a b : Bound) : Bool :=
+  a.slots == b.slots && a.extraPos == b.extraPos && kwEq a.extraKw b.extraKw
+
+/-- a keyword is accepted: it names a positional-or-keyword parameter not already filled positionally, or
+    a keyword-only parameter, or it names no parameter at all and the body takes `**kw` -/
+def kwAccepted (s : Sig) (a : CArgs) (k : Name) : Bool :=
+  (paramNames (s.pk.drop a.pos.length ++ s.ko)).contains k ||
+    (s.varKw && !(paramNames s.named).contains k)
+
+/-- `inspect.signature(body).bind_partial(None, *args, **kwargs)` succeeds -/
+def wellCalled (s : Sig) (a : CArgs) : Bool :=
+  (s.varPos || decide (a.pos.length ≤ s.pk.length)) && (keys a.kw).all (kwAccepted s a)
+
+/-! ### `Call.__eq__` (as repaired): equal tasks and equal EFFECTIVE arguments -/
+
+/-- `Call._effective_arguments()`: the bound arguments with defaults applied, or the literal
+    `(args, kwargs)` when binding raises `TypeError` -/
 inductive Eff
-  | bound (l : List (Option AVal))
+  | bound (b : Bound)
   | literal (a : CArgs)
   deriving Repr
 
-def effArgs (sig : List Param) (a : CArgs) : Eff :=
-  if wellCalled sig a then .bound (bind sig a) else .literal a
+def effArgs (s : Sig) (a : CArgs) : Eff :=
+  if wellCalled s a then .bound (bindS s a) else .literal a
 
 def effArgsEq : Eff → Eff → Bool
-  | .bound a, .bound b => a == b
+  | .bound a, .bound b => boundEq a b
   | .literal a, .literal b => argsEq a b
   | _, _ => false
 
 /-- `Call.__eq__`: `task` (`Task.__eq__`: name and code object, i.e. `cls`) and the effective arguments;
-    `called_as` is not compared.  `sig` gives each task's parameters (after the context) -/
-def callEq (sig : Nat → List Param) (c d : Occ) : Bool :=
+    `called_as` is not compared.  `sig` gives each task's signature (after the context) -/
+def callEq (sig : Nat → Sig) (c d : Occ) : Bool :=
   c.cls == d.cls && effArgsEq (effArgs (sig c.id) c.args) (effArgs (sig d.id) d.args)
 
+/-- "same task, same effective arguments" -/
+def effEq (sig : Nat → Sig) (c d : Occ) : Bool :=
+  c.id == d.id && boundEq (bindS (sig c.id) c.args) (bindS (sig d.id) d.args)
+
 /-- `Executor.dedupe` -/
-def dedupe (sig : Nat → List Param) (l : List Occ) : List Occ := dedupeBy (callEq sig) l
+def dedupe (sig : Nat → Sig) (l : List Occ) : List Occ := dedupeBy (callEq sig) l
 
 /-! ### `execute` -/
 
 /-- the list of calls that are executed, in order -/
-def runLog (sig : Nat → List Param) (dd : Bool) (dflt : Option TaskT) (req : List (TaskT × KW)) : List Occ :=
+def runLog (sig : Nat → Sig) (dd : Bool) (dflt : Option TaskT) (req : List (TaskT × KW)) : List Occ :=
   if dd then dedupe sig (expand (normalize dflt req)) else expand (normalize dflt req)
 
 /-- `Executor.execute`: the run log and the returned mapping (task dictionary key ↦ index of the execution
     whose return value is stored) -/
-def execute (sig : Nat → List Param) (dd : Bool) (dflt : Option TaskT) (req : List (TaskT × KW)) :
+def execute (sig : Nat → Sig) (dd : Bool) (dflt : Option TaskT) (req : List (TaskT × KW)) :
     List Occ × List (Nat × Nat) :=
   (runLog sig dd dflt req, runResults 0 [] (runLog sig dd dflt req))
 
